@@ -724,7 +724,43 @@ impl Ref {
                 match &key.modi {
                     // an array-valued field under a quantifier: the texts do not say whether the
                     // members may be satisfied by different elements (Appendix A)
-                    KMod::All | KMod::Of(_) if matches!(fv, Some(DVal::Arr(_))) => ANY,
+                    // The two readings bracket the result: when some single element satisfies the
+                    // quantifier both readings are true, when even the union over all elements
+                    // does not, neither is; only in between is the cell open.
+                    KMod::All | KMod::Of(_) if matches!(fv, Some(DVal::Arr(_))) => {
+                        let Some(DVal::Arr(items)) = fv else { unreachable!() };
+                        let q = |xs: &[TS]| match &key.modi {
+                            KMod::All => all3(xs),
+                            KMod::Of(n) => of3(xs, *n),
+                            _ => ANY,
+                        };
+                        let union = q(&sets);
+                        if matches!(key.modi, KMod::Of(0)) {
+                            // none-of: decided only when no member is matched by any element
+                            if union == T {
+                                T
+                            } else {
+                                ANY
+                            }
+                        } else if items.iter().any(|x| matches!(x, DVal::Arr(_))) {
+                            ANY
+                        } else {
+                            // (only string predicates are documented to look inside arrays)
+                            let all_string_members = !matches!(castmod, KMod::Int | KMod::Flt)
+                                && members.iter().all(|m| matches!(m, RVal::Str(p) if matches!(parse_pattern(p, self.icase_build), Ok(Pat { kind: PKind::Regex(_) | PKind::Any | PKind::Contains(_) | PKind::Ends(_) | PKind::Starts(_) | PKind::Exact(_), .. }))));
+                            let some_element = all_string_members && items.iter().any(|x| {
+                                let per: Vec<TS> = members.iter().map(|m| self.eval_scalar(&key.field, &castmod, m, doc, Some(x))).collect();
+                                q(&per) == T
+                            });
+                            if some_element {
+                                T
+                            } else if union & T == 0 {
+                                FM
+                            } else {
+                                ANY
+                            }
+                        }
+                    }
                     KMod::All => {
                         if fv.is_none() {
                             M
